@@ -17,6 +17,7 @@ import (
 	"time"
 
 	"github.com/refraction-networking/conjure/internal/conjurepath"
+	"github.com/refraction-networking/conjure/internal/verifhook"
 	kit "github.com/refraction-networking/conjure/internal/verifkit"
 	"github.com/refraction-networking/conjure/pkg/core"
 	cj "github.com/refraction-networking/conjure/pkg/station/lib"
@@ -416,4 +417,50 @@ func vWaitFor(bound time.Duration, cond func() bool) bool {
 		}
 	}
 	return true
+}
+
+// ---- pausing a real ingest between its critical sections (verifhook.Yield) ----------------------------
+
+type vPauseInfo struct{ parked, gate chan struct{} }
+
+var vPauses sync.Map // goroutine id -> vPauseInfo
+var vPauseOnce sync.Once
+
+// vAdmitPaused runs the real ingest of the registration in its own goroutine, parks it at the yield
+// point after the registration has been tracked (and before it is validated), runs during(), and lets
+// the ingest finish.  This is the state a too-early connection attempt meets.
+func (s *vStation) vAdmitPaused(sp vRegSpec, during func()) (*cj.DecoyRegistration, error) {
+	vPauseOnce.Do(func() {
+		verifhook.Set(func(point string) {
+			if point != "ingest:after-track" {
+				return
+			}
+			if v, ok := vPauses.Load(kit.GoID()); ok {
+				pi := v.(vPauseInfo)
+				close(pi.parked)
+				<-pi.gate
+			}
+		})
+	})
+	reg, err := s.vBuild(sp)
+	if err != nil {
+		return nil, err
+	}
+	pi := vPauseInfo{make(chan struct{}), make(chan struct{})}
+	done := make(chan struct{})
+	go func() {
+		id := kit.GoID()
+		vPauses.Store(id, pi)
+		defer vPauses.Delete(id)
+		defer close(done)
+		s.rm.VerifIngest(reg)
+	}()
+	select {
+	case <-pi.parked:
+		during()
+		close(pi.gate)
+	case <-done:
+	}
+	<-done
+	return reg, nil
 }
